@@ -11,7 +11,7 @@ float32-rounding allowance.
 """
 from __future__ import annotations
 
-import json
+import json, os
 from fractions import Fraction
 
 from checks import config_common as cc
@@ -42,10 +42,13 @@ def edpcol_of(res):
 
 def run(ck: Check):
     thorough = ck.tier == "thorough"
-    ck.rule = ("micro-specs (1 Einsum, 2-3 memories, finite sizes); four mapper runs each: ENERGY, LATENCY, EDP, "
+    ck.rule = ("micro-specs (1 Einsum, 2-3 memories, finite sizes) and memory-bound 3-level 8x8x8-class matmuls; four mapper runs each: ENERGY, LATENCY, EDP, "
                "ENERGY|LATENCY; one SetMetrics step per micro-spec validated by TLC. Non-trivial = every micro-spec with "
                "all four runs recorded (fronts with at least two points are counted separately); distinct by micro-spec.")
     worlds = cc.small_worlds(ck, 4 if not thorough else 20, 900)
+    if os.environ.get("C17_ONLY_BW"):
+        worlds = []
+    worlds += cc.bandwidth_worlds(ck, 2 if not thorough else 8, 950)
     obs = cc.observe(ck, [(("single", w["id"]), w, None) for w in worlds])
     fr_runs = mc.run_mapper(ck, [(w, ("ENERGY", "LATENCY"), None, True) for w in worlds])
     edp_runs = mc.run_mapper(ck, [(w, ("ENERGY_DELAY_PRODUCT",), None, True) for w in worlds])
@@ -66,8 +69,13 @@ def run(ck: Check):
         small = all(x is None or (abs(x.numerator) < 2 ** 26 and x.denominator < 16)
                     for x in (o["optE"], o["optL"], o["optEDP"], p["minE"], p["minL"], p["minEDP"]))
         if not small:
-            ck.extra["skipped_large_numbers"] = ck.extra.get("skipped_large_numbers", 0) + 1
-            continue
+            # SetMetrics only compares values for equality: an order-preserving renumbering of the values of this
+            # trace keeps every clause and keeps TLC's 32-bit cross-multiplication in range
+            vals = sorted({x for x in (o["optE"], o["optL"], o["optEDP"], p["minE"], p["minL"], p["minEDP"]) if x is not None})
+            rank = {x: Fraction(i + 1) for i, x in enumerate(vals)}
+            o = dict(o, **{k_: (rank[o[k_]] if o.get(k_) is not None else None) for k_ in ("optE", "optL", "optEDP")})
+            p = dict(p, **{k_: (rank[p[k_]] if p.get(k_) is not None else None) for k_ in ("minE", "minL", "minEDP")})
+            ck.extra["traces_with_rank_transformed_values"] = ck.extra.get("traces_with_rank_transformed_values", 0) + 1
         tobs = {"optE": cc.NONE, "optL": cc.NONE, "optEDP": cc.NONE, "valid": True,
                 "minE": cc.fz(p["minE"]), "minL": cc.fz(p["minL"]), "minEDP": cc.fz(p["minEDP"]), "edpcol": p["edpcol"]}
         tr = {"id": str(w["id"]), "base": cc.tla_obs(o),
